@@ -59,16 +59,20 @@ def conc_suite(profile, n_quick, n_thorough, sched_quick, sched_thorough, focus,
                 runs.append((name, progs, rng.randrange(1 << 30), rng.choice([0, 10, 30, 80])))
         okh, exe_h, logh = vlib.build_harness(src="conc_q.cpp", out_name="conc_q_heter", defines=["VQ_HETER=1"])
         ctx.oblige("harness conc_q_heter (HeterEventQueue, same model) builds from /repo/include", okh, logh[-2000:])
+        oki, exe_i, logi = vlib.build_harness(src="conc_q.cpp", out_name="conc_q_incl", defines=["VQ_INCLUDE=1"])
+        ctx.oblige("harness conc_q_incl (event included in the prototype: the other enqueue overload) builds from /repo/include", oki, logi[-2000:])
         all_runs = runs
-        variants = [("conc_q", exe, None)]
+        variants = [("conc_q", exe, None, 1)]
         if okh:
-            variants.append(("conc_q_heter", exe_h, suite_conc.HETER_OK))
+            variants.append(("conc_q_heter", exe_h, suite_conc.HETER_OK, 2))
+        if oki:
+            variants.append(("conc_q_incl", exe_i, None, 3))
         nfail = 0
         norc = 0
-        for vlabel, exe, only_ops in variants:
+        for vlabel, exe, only_ops, stride in variants:
             # the heterogeneous queue has no processUntil / takeEvent / peekEvent / DisableQueueNotify: the runs that use
             # only calls it has are replayed on the same model (every second one, to bound the time)
-            runs = all_runs if only_ops is None else [r for r in all_runs if all(c in only_ops for p in r[1] for c in p)][::2]
+            runs = [r for r in all_runs if only_ops is None or all(c in only_ops for p in r[1] for c in p)][::stride]
             ctx.dist["runs_" + vlabel] += len(runs)
             B = 400
             for off in range(0, len(runs), B):
